@@ -52,12 +52,17 @@ func c12General(c *core.Ctx) {
 	if hasHelp(argv) {
 		return
 	}
+	if FoldedEq(p, argv) {
+		c.Inc("G_unclaimed_folded_eq")
+		return
+	}
 	for _, o := range p.Opts {
 		o.EnvSet = false
 	}
 	d := descOf(p, argv)
 	c.Journal(d)
 	o1 := drive.Run(drive.Single(p), argv)
+	c.LibDone()
 	c.Eval()
 	var envs []string
 	for len(envs) == 0 {
@@ -71,6 +76,7 @@ func c12General(c *core.Ctx) {
 	d2 := descOf(p, argv)
 	c.Journal(d2)
 	o2 := drive.Run(drive.Single(p), argv)
+	c.LibDone()
 	c.Eval()
 	named := 0
 	for _, t := range argv {
@@ -146,6 +152,7 @@ func c12Required(c *core.Ctx) {
 	c.Journal(d)
 	c.Nontrivial("R", d.Decl, d.Spec, fmt.Sprintf("%q", argv))
 	obs := drive.Run(drive.Single(p), argv)
+	c.LibDone()
 	c.Eval()
 	if !obs.Accepted() {
 		c.Violation("a required option absent from the command line is not satisfied by its environment value", map[string]interface{}{"outcome": drive.OutcomeKey(p, obs)}, nil)
@@ -157,6 +164,7 @@ func c12Required(c *core.Ctx) {
 		c.Violation("control: a required option absent from the command line is accepted without any environment value", nil, nil)
 		return
 	}
+	c.LibDone()
 	c.Eval()
 	c.Inc("R_satisfied_by_env")
 }
@@ -229,6 +237,7 @@ func c12Repeated(c *core.Ctx) {
 	c.Journal(d)
 	c.Nontrivial("N", d.Decl, d.Spec, fmt.Sprintf("%q", argv))
 	obs := drive.Run(drive.Single(p), argv)
+	c.LibDone()
 	c.Eval()
 	if !obs.Accepted() {
 		c.Violation("an option written on the command line is rejected although the spec allows it; it also has an environment value", map[string]interface{}{"outcome": drive.OutcomeKey(p, obs)}, nil)
